@@ -151,6 +151,40 @@ def fixed_module_owns_exactly_its_cells(S, zero, same_object):
         S.ensure("fixed.fixed_module_not_listed_outside_its_cells", ("F" not in al) or (zero and seq(al["F"], 0)))
 
 
+@contract(P, functions=[A + "initial_allocation", A + "_detect_fixed_rectangles"], budget_s=900,
+          params=[dict(zero=z, order=o) for z in (False, True) for o in ("FG", "GF", "FcG")],
+          scope="two fixed modules (one rectangle each, disjoint) + one soft module; cells = their rectangles (+ an arbitrary refinable cell), in every order")
+def several_fixed_modules_each_own_their_own_cells(S, zero, order):
+    """added after seed C03-3: with two fixed modules each cell goes to the module that covers it, not to the last one"""
+    E, EA = set_eps(S)
+    stub_find_location(S, E, EA)
+    mods = {"F": hard_module(S, "f", 1, True), "S": soft_module(S, "s", "scalar", True), "G": hard_module(S, "g", 1, True)}
+    fr, gr = mods["F"]["rectangles"][0], mods["G"]["rectangles"][0]
+    S.assume(ovl_r(fr, gr) <= 0)
+    n = Netlist({"Modules": mods})
+    frect, grect = n.get_module("F").rectangles[0], n.get_module("G").rectangles[0]
+    cells = {"F": (frect, {}, 0), "G": (grect, {}, 0)}
+    if "c" in order:
+        other = mk_cell(S, "c", 0)
+        S.assume(sand(cell_ovl(other[0], fr) <= 0, cell_ovl(other[0], gr) <= 0))
+        cells["c"] = other
+    a = bare_allocation([cells[k] for k in order])
+    S.patch(amod, "Allocation", Capture)
+    out = S.call(a.initial_allocation, n, zero)
+    S.ensure("fixed2.no_raise", out.ok)
+    if not out.ok:
+        return
+    cap = out.value.captured
+    for nm, rect in (("F", frect), ("G", grect)):
+        owned = [d for d in cap if d[0] is rect]
+        S.ensure("fixed2.each_fixed_module_fully_owns_exactly_its_own_cell", len(owned) == 1 and list(owned[0][1].keys()) == [nm] and
+                 seq(owned[0][1][nm], 1) and rect.fixed)
+    rest = [d for d in cap if d[0] is not frect and d[0] is not grect]
+    S.ensure("fixed2.other_cells_listed_once_and_not_fixed", len(rest) == (1 if "c" in order else 0) and all(not d[0].fixed for d in rest))
+    for d in rest:
+        S.ensure("fixed2.fixed_modules_not_listed_outside_their_cells", all((f not in d[1]) or (zero and seq(d[1][f], 0)) for f in ("F", "G")))
+
+
 @contract(P, functions=[A + "_detect_fixed_rectangles"], params=[dict(case=c) for c in ("partial", "missing")])
 def fixed_module_on_incompatible_cells_rejected(S, case):
     """a cell partially covered by a fixed module, or a fixed module whose rectangle is no cell: rejected"""
